@@ -67,7 +67,7 @@ package internal
 
 //@ func (*protoEncoder).Encode
 //@   requires p != nil && p.out != nil
-//@   modifies wrOut
+//@   modifies wrOut, wireFmt
 //@   ensures forall w io.Writer :: w != p.out ==> wrOut[w] == old(wrOut[w])
 
 //@ func (*jsonEncoder).Encode
